@@ -222,6 +222,11 @@ def run(tier):
         for b in range(nb):
             for ctx, fs, body in c10.instances(kind, text, rng):
                 inputs.append(('neg', c10.build('int base_only = 1;\n', ctx, fs, body).encode('latin-1'), 'stdin'))
+    # witnesses of every repaired or recorded finding of any property (regression inputs for the crash fixes among them)
+    for f in common.load_findings():
+        wtxt = f.get('witness')
+        if wtxt and not wtxt.startswith('cproc ') and not (tier == 'quick' and f['id'].startswith('K05')):     # K05 runs into the CPU budget: thorough only
+            inputs.append(('wit', (wtxt + '\n').encode('latin-1', 'replace'), 'stdin'))
     # batches
     B = 250
     batches = [(asan, inputs[i:i + B], True) for i in range(0, len(inputs), B)]
